@@ -403,6 +403,9 @@ pub fn eval_root_pair<P: PType, A: Side<P>, B: Side<P>>(
     };
     eval_ro::<P, A::V, B::V>(&va, &vb, A::val, B::val, &exp, qa, qb, lim, cnt, &mut out);
     let ro_union: Vec<GK> = va.union(vb.clone()).take(lim).map(|i| i.prefix().raw()).collect();
+    let ro_inter: Vec<GK> = va.intersection(vb.clone()).take(lim).map(|i| i.0.raw()).collect();
+    let ro_diff: Vec<GK> = va.difference(vb.clone()).take(lim).map(|i| i.prefix.raw()).collect();
+    let ro_cdiff: Vec<GK> = va.covering_difference(vb.clone()).take(lim).map(|i| i.0.raw()).collect();
     drop((va, vb));
     // ================================================================ mutable twins
     // expected read-only sequences (prefix key, left value, right value)
@@ -481,7 +484,18 @@ pub fn eval_root_pair<P: PType, A: Side<P>, B: Side<P>>(
     {
         let (Some(mut vam), Some(vbm)) = (am.view_mut_at_(mkp(qa)), bm.view_mut_at_(mkp(qb))) else { return out };
         let want: Vec<(GK, u32, u32)> = exp.iter().filter(|e| e.l.is_some() && e.r.is_some()).map(|e| (e.key, e.l.unwrap().2, e.r.unwrap().2)).collect();
-        let mut held: Vec<(GK, &mut A::V, &mut B::V)> = vam.intersection_mut(vbm).take(lim).map(|(p, l, r)| (norm(p.raw()), l, r)).collect();
+        let mut raws: Vec<GK> = vec![];
+        let mut held: Vec<(GK, &mut A::V, &mut B::V)> = vam
+            .intersection_mut(vbm)
+            .take(lim)
+            .map(|(p, l, r)| {
+                raws.push(p.raw());
+                (norm(p.raw()), l, r)
+            })
+            .collect();
+        if raws != ro_inter && raws.iter().map(|k| norm(*k)).collect::<Vec<_>>() == ro_inter.iter().map(|k| norm(*k)).collect::<Vec<_>>() {
+            out.push(Viol::new("C13", "TrieViewMut::intersection_mut", "prefix-differs-from-read-only-traversal", format!("roots {:x?} & {:x?}: intersection_mut yields prefixes {:x?}, intersection yields {:x?}", qa, qb, raws, ro_inter)));
+        }
         let got: Vec<(GK, u32, u32)> = held.iter().map(|(k, l, r)| (*k, A::val(l), B::val(r))).collect();
         if got != want {
             let keys = |v: &[(GK, u32, u32)]| -> Vec<GK> { v.iter().map(|x| x.0).collect() };
@@ -512,7 +526,18 @@ pub fn eval_root_pair<P: PType, A: Side<P>, B: Side<P>>(
     {
         let (Some(mut vam), Some(vb)) = (am.view_mut_at_(mkp(qa)), bm.view_at_(mkp(qb))) else { return out };
         let want: Vec<(GK, u32, Option<Obs>)> = exp.iter().filter(|e| e.l.is_some() && e.r.is_none()).map(|e| (e.key, e.l.unwrap().2, e.lpm_r)).collect();
-        let mut held: Vec<(GK, &mut A::V, Option<Obs>)> = vam.difference_mut(vb).take(lim).map(|i| (norm(i.prefix.raw()), i.value, i.right.map(|(p, v)| ob(p, B::val(v))))).collect();
+        let mut raws: Vec<GK> = vec![];
+        let mut held: Vec<(GK, &mut A::V, Option<Obs>)> = vam
+            .difference_mut(vb)
+            .take(lim)
+            .map(|i| {
+                raws.push(i.prefix.raw());
+                (norm(i.prefix.raw()), i.value, i.right.map(|(p, v)| ob(p, B::val(v))))
+            })
+            .collect();
+        if raws != ro_diff && raws.iter().map(|k| norm(*k)).collect::<Vec<_>>() == ro_diff.iter().map(|k| norm(*k)).collect::<Vec<_>>() {
+            out.push(Viol::new("C13", "TrieViewMut::difference_mut", "prefix-differs-from-read-only-traversal", format!("roots {:x?} \\ {:x?}: difference_mut yields prefixes {:x?}, difference yields {:x?}", qa, qb, raws, ro_diff)));
+        }
         let got: Vec<(GK, u32, Option<Obs>)> = held.iter().map(|(k, v, r)| (*k, A::val(v), *r)).collect();
         if got != want {
             let keys = |v: &[(GK, u32, Option<Obs>)]| -> Vec<GK> { v.iter().map(|x| x.0).collect() };
@@ -543,7 +568,18 @@ pub fn eval_root_pair<P: PType, A: Side<P>, B: Side<P>>(
     {
         let (Some(mut vam), Some(vb)) = (am.view_mut_at_(mkp(qa)), bm.view_at_(mkp(qb))) else { return out };
         let want: Vec<(GK, u32)> = exp.iter().filter(|e| e.l.is_some() && e.lpm_r.is_none()).map(|e| (e.key, e.l.unwrap().2)).collect();
-        let mut held: Vec<(GK, &mut A::V)> = vam.covering_difference_mut(vb).take(lim).map(|(p, v)| (norm(p.raw()), v)).collect();
+        let mut raws: Vec<GK> = vec![];
+        let mut held: Vec<(GK, &mut A::V)> = vam
+            .covering_difference_mut(vb)
+            .take(lim)
+            .map(|(p, v)| {
+                raws.push(p.raw());
+                (norm(p.raw()), v)
+            })
+            .collect();
+        if raws != ro_cdiff && raws.iter().map(|k| norm(*k)).collect::<Vec<_>>() == ro_cdiff.iter().map(|k| norm(*k)).collect::<Vec<_>>() {
+            out.push(Viol::new("C13", "TrieViewMut::covering_difference_mut", "prefix-differs-from-read-only-traversal", format!("roots {:x?} \\\\ {:x?}: covering_difference_mut yields prefixes {:x?}, covering_difference yields {:x?}", qa, qb, raws, ro_cdiff)));
+        }
         let got: Vec<(GK, u32)> = held.iter().map(|(k, v)| (*k, A::val(v))).collect();
         if got != want {
             let keys = |v: &[(GK, u32)]| -> Vec<GK> { v.iter().map(|x| x.0).collect() };
